@@ -552,6 +552,13 @@ static size_t calculateVoidPointerAlignedSize(size_t size)
 #endif
 }
 
+static bool sizeLeavesRoomForAccountingInformation(size_t size)
+{
+    /* guard bytes + alignment padding + the leak record are added to the size: that sum must not wrap around */
+    const size_t accountingSize = (size_t) MemoryLeakDetector::memory_corruption_buffer_size + sizeof(void*) + sizeof(MemoryLeakDetectorNode);
+    return size <= (size_t) -1 - accountingSize;
+}
+
 size_t MemoryLeakDetector::sizeOfMemoryWithCorruptionInfo(size_t size)
 {
     return calculateVoidPointerAlignedSize(size + memory_corruption_buffer_size);
@@ -654,6 +661,7 @@ char* MemoryLeakDetector::allocMemory(TestMemoryAllocator* allocator, size_t siz
      * So, for malloc, we'll allocate the memory separately so we can detect this and give a proper error.
      */
 
+    if (!sizeLeavesRoomForAccountingInformation(size)) return NULLPTR;
     char* memory = allocateMemoryWithAccountingInformation(allocator, size, file, line, allocatNodesSeperately);
     if (memory == NULLPTR) return NULLPTR;
     MemoryLeakDetectorNode* node = createMemoryLeakAccountingInformation(allocator, size, memory, allocatNodesSeperately);
@@ -709,6 +717,7 @@ char* MemoryLeakDetector::reallocMemory(TestMemoryAllocator* allocator, char* me
 #ifdef CPPUTEST_DISABLE_MEM_CORRUPTION_CHECK
    allocatNodesSeperately = true;
 #endif
+    if (!sizeLeavesRoomForAccountingInformation(size)) return NULLPTR;
     if (memory) {
         MemoryLeakDetectorNode* node = memoryTable_.removeNode(memory);
         if (node == NULLPTR) {
